@@ -119,6 +119,7 @@ def run(ctx):
                     except wire.Unencodable:
                         pass
     J.run_verify_cases(ctx, "roundtrip-impl-signs", _batch, check_c01=True, prop="C03")
+    detach_adversarial(ctx)
     if ctx.driver_ok and model_lines:
         refprims.CHOICE_TAPE[:] = []
         answers = model_eval(model_lines)
@@ -169,6 +170,59 @@ def detach(ctx, kind, value, pkarg, payload):
                 ctx.report("restoring the payload member of a detached JSON JWS does not verify", {"value": orig}, "detach:json-restore")
     except Exception as e:  # noqa: BLE001
         ctx.report(f"detach/restore raised {err_name(e)}", {"kind": kind, "value": repr(value)[:300]}, f"detach:{kind}:error")
+
+
+def detach_adversarial(ctx):
+    """detach_content on compact tokens whose payload segment text also occurs inside the header or signature
+    segment (payload = the header JSON, aligned prefixes / infixes of it, one- and two-octet payloads whose short
+    encoding is bound to occur elsewhere), plus strings that are not three segments: model (detachCompact, the subject
+    of c03_detach) vs joserfc on every one, and the header / signature segments must come back untouched."""
+    from joserfc import jws
+    rng = ctx.rng
+    toks = []
+    for alg, kn in (("HS256", "oct32"), ("ES256", "p256"), ("EdDSA", "ed25519")):
+        sk, pk = K.key(kn, private=True), K.key(kn, private=False)
+        for header in ({"alg": alg}, {"alg": alg, "kid": "018c0ae5-4d9b-471b-bfd6-eef314bc7037", "typ": "JOSE"}):
+            hjson = json.dumps(header, separators=(",", ":")).encode()
+            pls = [hjson, b""] + [hjson[:n] for n in range(3, len(hjson), 3)] + [hjson[i:i + 3] for i in range(0, len(hjson) - 2, 3)]
+            pls += [bytes([b]) for b in (range(256) if ctx.tier == "thorough" else rng.sample(range(256), 48))]
+            pls += [bytes([rng.randrange(256), rng.randrange(256)]) for _ in range(16)]
+            for pl in pls:
+                tok = jws.serialize_compact(header, pl, sk, algorithms=J.ALL_ALGS)
+                toks.append((tok, pl, pk))
+            # payload taken from the signature segment of a previous token
+            sseg = toks[-1][0].split(".")[2]
+            for i in (0, 4, 8):
+                pl = J.b64u_dec(sseg[i:i + 4].encode())
+                toks.append((jws.serialize_compact(header, pl, sk, algorithms=J.ALL_ALGS), pl, pk))
+    odd = ["", "abc", "a.b", ".", "..", "...", "a..c", "a.b.c.d", ".b.", "a.a.a", "ab.ab.ab", "a.b.c.", "\u00e9.\u00e9.\u00e9"]
+    lines = ["jws.detach " + wire.hx(t.encode("utf-8")) for t, _, _ in toks] + ["jws.detach " + wire.hx(t.encode("utf-8")) for t in odd]
+    answers = model_eval(lines) if ctx.driver_ok else [None] * len(lines)
+    for i, m in enumerate(answers):
+        tok = toks[i][0] if i < len(toks) else odd[i - len(toks)]
+        try:
+            d = jws.detach_content(tok)
+            impl = "ok " + wire.hx(d.encode("utf-8"))
+        except Exception as e:  # noqa: BLE001
+            d, impl = None, "err " + err_name(e)
+        occurs = i < len(toks) and bool(tok.split(".")[1]) and (tok.split(".")[1] in tok.split(".")[0] or tok.split(".")[1] in tok.split(".")[2])
+        ctx.count("detach-adversarial", tok, True, ("odd:" + impl[:14]) if i >= len(toks) else ("payload-text-occurs-elsewhere" if occurs else "plain"))
+        if m is not None and m != impl:
+            ctx.disagreements.append({"suite": "detach-adversarial", "token": tok, "model": m, "impl": impl})
+            ctx.disagreements_checked += 1
+        if i < len(toks):
+            _, pl, pk = toks[i]
+            h, p, s_ = tok.split(".")
+            if d != f"{h}..{s_}":
+                ctx.report("detach_content changed the header or signature segment", {"token": tok, "detached": d, "payload": pl.hex()}, "detach:compact")
+                continue
+            restored = ".".join([d.split(".")[0], p, d.split(".")[2]])
+            try:
+                ok = jws.deserialize_compact(restored, pk, algorithms=J.ALL_ALGS).payload == pl
+            except Exception:  # noqa: BLE001
+                ok = False
+            if not ok:
+                ctx.report("restoring the payload of a detached token does not verify to the original payload", {"token": tok}, "detach:compact-restore")
 
 
 def search(ctx):
